@@ -340,6 +340,9 @@ def gen_kw(rng, test, estim, bet, u, t):
             kw["eta"] = rng.choice([t + (u - t) * F(k, 8) for k in range(1, 8)] + [u * F(15, 16), (t + u) / 2])
         if test == "alpha_mart" and estim is None and rng.chance(0.3):
             kw.pop("eta", None)
+        if test == "wald_sprt" and rng.chance(0.25):
+            # the documented range of the SPRT alternative is (0, u): also alternatives at or below the null mean
+            kw["eta"] = rng.choice([t, t * F(1, 2), t * F(1, 5), t * F(7, 8)])
     if estim == "shrink_trunc":
         if rng.chance(0.7):
             kw["c"] = rng.choice([F(1, 2), F(1, 4), F(1, 8), (F(3, 4) - t) / 2 if F(3, 4) > t else F(1, 8)])
@@ -629,7 +632,9 @@ def valid_for_wellformed(case):
     kw = {k: F(v) for k, v in init["kw"].items() if v is not None}
     if "g" in kw and not (0 <= kw["g"] < 1):
         return False
-    if "eta" in kw and not (t < kw["eta"] <= u) and (init["test"] or "alpha_mart") in ("alpha_mart", "wald_sprt"):
+    if "eta" in kw and not (t < kw["eta"] <= u) and (init["test"] or "alpha_mart") == "alpha_mart":
+        return False
+    if "eta" in kw and not (0 < kw["eta"] <= u) and init["test"] == "wald_sprt":
         return False
     if (init["test"] == "wald_sprt") and init["N"] is not None and not init["ro"]:
         return False
@@ -742,7 +747,7 @@ def oracle_c12(case, ir):
             if dead:
                 continue
             if test in ("alpha_mart", "wald_sprt"):
-                e = min(u, max(pj, m)) if test == "alpha_mart" else pj
+                e = min(u, max(pj, m))   # alpha_mart and (repaired) wald_sprt use an alternative in [mu_j, u]
                 fac = (xj * e / m + (u - xj) * (u - e) / (u - m)) / u
             else:
                 fac = 1 + pj * (xj - m)
